@@ -41,7 +41,7 @@ impl Prop for C08 {
         vec!["two evaluations of the same building differ by HashMap summation order: equality up to the DESIGN 3.4 tolerance".into()]
     }
     fn cases(tier: Tier) -> u32 {
-        tier.pick(4_000, 150_000)
+        tier.pick(4_000, 600_000)
     }
     fn strategy(tier: Tier) -> BoxedStrategy<Case> {
         let mut p = params(tier);
